@@ -91,7 +91,7 @@ func runHistory(res *Result, cfg PoolCfg, ops []HOp) error {
 					continue
 				}
 				if prev, ok := second[c.ID]; ok {
-					if strings.Join(prev, "\n") != strings.Join(got, "\n") {
+					if strings.Join(lr.CanonTies(prev), "\n") != strings.Join(lr.CanonTies(got), "\n") {
 						res.Fail(Failure{Kind: "oracle", Sig: "C13:commit-changed-second-handle", Detail: fmt.Sprintf("data at commit %s changed for a second handle with warm caches: %d values before, %d now", c.ID, len(prev), len(got)), Replay: map[string]any{"pool": cfg.String(), "history": lr.Log, "before": prev, "now": got}, Expected: strings.Join(prev, " "), Observed: strings.Join(got, " ")})
 					}
 				} else {
@@ -335,7 +335,7 @@ func readerIsolation(res *Result, rng *Rng, it int) error {
 			res.Fail(Failure{Kind: "oracle", Sig: "C13:reader-error-under-writers", Detail: fmt.Sprintf("a running query failed when writers committed at its storage operation %d: %v", k, err), Replay: map[string]any{"pool": cfg.String(), "setup": lr.Log, "writers": wlog, "k": k}, Expected: "reader unaffected", Observed: err.Error()})
 			continue
 		}
-		if strings.Join(got, "\n") != strings.Join(want, "\n") {
+		if strings.Join(lr.CanonTies(got), "\n") != strings.Join(lr.CanonTies(want), "\n") {
 			res.Fail(Failure{Kind: "oracle", Sig: "C13:reader-not-isolated", Detail: fmt.Sprintf("a query that started before writers committed (injected at its storage operation %d of %d) returned %d values instead of the %d of its commit", k, nops, len(got), len(want)), Replay: map[string]any{"pool": cfg.String(), "setup": lr.Log, "writers": wlog, "k": k, "got": got, "want": want}, Expected: strings.Join(want, " "), Observed: strings.Join(got, " ")})
 		}
 	}
